@@ -151,7 +151,7 @@ class RecursiveSigner:
         if not isinstance(dependency_envelope, cbor2.CBORTag):
             raise ValueError(f"Dependency {dependency_name} in {self.envelope_name} is not a valid envelope.")
 
-        return dependency_envelope
+        return _mutable_envelope(dependency_envelope)
 
     def _sign(self):
         self.envelope = self.signer.sign_envelope(
@@ -261,11 +261,26 @@ The configuration is a JSON dictionary with the following available attributes (
     cmd_sign_recursive.add_argument("--configuration", required=True, type=Path, help="A .json configuration file")
 
 
+def _mutable_envelope(envelope):
+    """Return the envelope with its members in a regular dict.
+
+    Newer cbor2 releases decode the content of a tag into immutable containers, the signing code updates
+    the envelope members in place.
+    """
+    if (
+        isinstance(envelope, cbor2.CBORTag)
+        and not isinstance(envelope.value, dict)
+        and hasattr(envelope.value, "items")
+    ):
+        return cbor2.CBORTag(envelope.tag, dict(envelope.value))
+    return envelope
+
+
 def load_envelope(input_file: Path) -> cbor2.CBORTag:
     """Load suit envelope."""
     with open(input_file, "rb") as fh:
         envelope = cbor2.load(fh)
-    return envelope
+    return _mutable_envelope(envelope)
 
 
 def save_envelope(output_file: Path, envelope) -> None:
